@@ -1,0 +1,85 @@
+//go:build verif
+
+// Contracts for the deductive verification of this package (comment-only file).
+// Compiled only with -tags verif; it contains no code. Syntax: see /verif/DESIGN.md.
+
+package main
+
+//@ func (*RoundRobinBackend).getNextBackendIndex
+//@   props C05
+//@   modifies rb.index
+//@   ensures empty: len(old(rb.backends)) == 0 ==> err != nil && rb.index == old(rb.index)
+//@   ensures advance: len(old(rb.backends)) > 0 ==> err == nil && rb.index == (old(rb.index) + 1) % len(rb.backends) && result == rb.index
+
+// ---- Backend interface (call-event ghosts: sends, closedB) ----
+
+//@ iface Backend.Send
+//@   modifies sends
+//@   ensures sends == old(sends) ++ seq1(self)
+
+//@ iface Backend.GetAddress
+//@   modifies nothing
+//@   ensures result == backendAddr(self)
+
+//@ iface Backend.Close
+//@   modifies closedB
+//@   ensures closedB == old(closedB) ++ seq1(self)
+
+//@ func (*BackendChangeListenerMgr).HandleBackendAdded
+//@   trusted call-event ghost bmAdds; listener fan-out verified separately
+//@   modifies bmAdds
+//@   ensures bmAdds == old(bmAdds) ++ seq1(backend)
+
+//@ func (*BackendChangeListenerMgr).HandleBackendRemoved
+//@   trusted call-event ghost bmRemoves; listener fan-out verified separately
+//@   modifies bmRemoves
+//@   ensures bmRemoves == old(bmRemoves) ++ seq1(backend)
+
+// ---- RoundRobinBackend ----
+
+//@ func (*RoundRobinBackend).getBackend
+//@   props C05
+//@   modifies nothing
+//@   ensures none: len(rb.backends) == 0 ==> err != nil
+//@   ensures pick: len(rb.backends) > 0 && index >= 0 ==> err == nil && result == rb.backends[index % len(rb.backends)]
+
+//@ func (*RoundRobinBackend).getBackendCount
+//@   props C05
+//@   modifies nothing
+//@   ensures result == len(rb.backends)
+
+//@ func (*RoundRobinBackend).Send
+//@   props C05
+//@   requires rb.index >= 0
+//@   modifies rb.index, sends
+//@   ensures empty: len(old(rb.backends)) == 0 ==> result != nil && sends == old(sends) && rb.index == old(rb.index)
+//@   ensures one: len(old(rb.backends)) > 0 ==> rb.index == (old(rb.index) + 1) % len(old(rb.backends)) && sends == old(sends) ++ seq1(old(rb.backends)[rb.index])
+//@   loop 0:
+//@     invariant n == len(rb.backends) && n > 0 && index == rb.index && index >= 0 && sends == old(sends)
+//@     invariant rb.index == (old(rb.index) + 1) % len(old(rb.backends))
+
+//@ func (*RoundRobinBackend).AddBackend
+//@   props C05 C19
+//@   modifies rb.backends, mapof(rb.backendMap), bmAdds
+//@   ensures list: rb.backends == old(rb.backends) ++ seq1(backend)
+//@   ensures map: has(rb.backendMap, backendAddr(backend)) && rb.backendMap[backendAddr(backend)] == backend
+//@   ensures mapframe: forall k string :: k != backendAddr(backend) ==> has(rb.backendMap, k) == old(has(rb.backendMap, k)) && rb.backendMap[k] == old(rb.backendMap[k])
+//@   ensures event: bmAdds == old(bmAdds) ++ seq1(backend)
+
+//@ func (*RoundRobinBackend).RemoveBackend
+//@   props C05 C19
+//@   modifies rb.backends, mapof(rb.backendMap), closedB, bmRemoves
+//@   ensures absent: !old(has(rb.backendMap, address)) ==> rb.backends == old(rb.backends) && !has(rb.backendMap, address) && closedB == old(closedB) && bmRemoves == old(bmRemoves)
+//@   ensures mapdel: !has(rb.backendMap, address)
+//@   ensures mapframe: forall k string :: k != address ==> has(rb.backendMap, k) == old(has(rb.backendMap, k)) && rb.backendMap[k] == old(rb.backendMap[k])
+//@   ensures list: old(has(rb.backendMap, address)) ==> (
+//@        (exists j int :: 0 <= j && j < len(old(rb.backends)) && backendAddr(old(rb.backends)[j]) == address
+//@             && (forall i int :: 0 <= i && i < j ==> backendAddr(old(rb.backends)[i]) != address)
+//@             && rb.backends == old(rb.backends)[:j] ++ old(rb.backends)[j+1:]
+//@             && closedB == old(closedB) ++ seq1(old(rb.backends)[j]))
+//@     || ((forall i int :: 0 <= i && i < len(old(rb.backends)) ==> backendAddr(old(rb.backends)[i]) != address)
+//@             && rb.backends == old(rb.backends) && closedB == old(closedB)))
+//@   ensures event: old(has(rb.backendMap, address)) ==> bmRemoves == old(bmRemoves) ++ seq1(old(rb.backendMap[address]))
+//@   loop 0:
+//@     invariant 0 <= $i && $i <= len(rb.backends) && rb.backends == old(rb.backends) && closedB == old(closedB)
+//@     invariant forall j int :: 0 <= j && j < $i ==> backendAddr(rb.backends[j]) != address
